@@ -87,6 +87,13 @@ Theorem C13_gsd_complementary : forall levels r n ds,
   (r <= n -> forall row, Forall2 lt row levels -> In row (concat ds)).
 Proof. exact gsd_complementary. Qed.
 
+(* the hypothesis "does not raise" is met by every design with >= 2 factors whose reduction does not
+   exceed any level count (a single factor always fails the assertion of _map_partitions_to_design) *)
+Theorem C13_gsd_succeeds : forall levels r,
+  2 <= length levels -> 2 <= r -> Forall (fun L => r <= L) levels ->
+  exists ds, build_gsd levels r r = Ok ds.
+Proof. exact gsd_succeeds. Qed.
+
 (* GSDGenerator.generate: a duplicate-free subset of the full factorial over the supplied values *)
 Theorem C13_gsd_generate_subset : forall (T : Type) (values : list (list T)) r rows,
   Forall (fun l => 2 <= length l) values -> gsd_generate values r = Ok rows ->
@@ -103,6 +110,7 @@ Print Assumptions C13_bb_structure.
 Print Assumptions C13_bb_levels.
 Print Assumptions C13_gsd_partition.
 Print Assumptions C13_gsd_complementary.
+Print Assumptions C13_gsd_succeeds.
 Print Assumptions C13_gsd_generate_subset.
 
 (* ------------------------------------------------------------------ non-vacuity ------ *)
